@@ -1242,7 +1242,10 @@ with exec_stmt (fuel : nat) (s0 : stmt) (st : state) {struct fuel} : res (sres *
           do '(formals, st1) <- mapM (fun na st0 => match snd na with
                                                    | None => Ok ((fst na, DNo), st0)
                                                    | Some e => if is_const 32%nat e then do '(v, st') <- const_alloc 32%nat e st0; Ok ((fst na, DConst v), st')
-                                                               else Ok ((fst na, DExpr e), st0)
+                                                               else match d with
+                                                                    | Asp => Ok ((fst na, DExpr e), st0)
+                                                                    | Py => do '(v, st') <- eval_expr f e st0; Ok ((fst na, DConst v), st')   (* CPython: at definition *)
+                                                                    end
                                                    end) args st;
           let id := length (funcs st1) in
           let st2 := set_funcs (funcs st1 ++ [Func n formals body (cur st1)]) st1 in
